@@ -469,7 +469,7 @@ func init() {
 				c.indexAll(pool[idx], extra)
 				return c11Finish(c, fmt.Sprintf("index(%s)", val.Debug(pool[idx])))
 			}},
-			{Name: "random", Count: countFn(30000, 3000000), Run: func(ctx *core.Ctx, idx int) core.Result {
+			{Name: "random", Count: countFn(150000, 3000000), Run: func(ctx *core.Ctx, idx int) core.Result {
 				r := core.CaseRng(ctx.Seed, "C11/random", idx)
 				a, b := randValue(r, 2), randValue(r, 2)
 				c := &c11case{}
